@@ -32,22 +32,41 @@ ObsCells(secs) ==
 RECURSIVE TotalLen(_,_)
 TotalLen(secs, k) == IF k > Len(secs) THEN 0 ELSE Len(secs[k].data) + TotalLen(secs, k + 1)
 
-ProbeOK(img, p) == Has(p, "byte") /\ CellAt(img, p.addr) = <<p.byte, p.perm>>
-W32OK(d, img, w) ==
-  /\ Has(w, "val")
-  /\ w.val # <<>> =>
-       LET b == [i \in 1..4 |-> CellAt(img, AddOff(w.addr, i - 1))[1]] IN
-       /\ \A i \in 1..4 : b[i] # -1
-       /\ w.val = Word32(d, b)
+\* the observed sections in coordinates relative to the origin O (see Elf!ImageRel)
+ObsRelOK(secs, O) ==
+  \A k \in 1..Len(secs) : LET r == Rel(secs[k].addr, O) IN r < RelCap /\ r + Len(secs[k].data) <= RelCap
+ObsRel(secs, O) ==
+  UNION { LET r == Rel(secs[k].addr, O) IN
+          { <<r + i - 1, secs[k].data[i], secs[k].perm>> : i \in 1..Len(secs[k].data) } : k \in 1..Len(secs) }
 
+\* The comparison is made in relative integer coordinates whenever the whole image and every
+\* observed section lie within RelCap of the origin (MC_Elf: ImageRel denotes Image), and on
+\* the limb representation otherwise.
 MemParts(d, b, e) ==
   LET secs  == e.res.ok.sections
-      cells == TLCEval(ObsCells(secs))
-      img   == TLCEval(Image(d, b))
+      O     == TLCEval(MinStart(d, b))
+      fast  == TLCEval(RelOK(d, b, O) /\ ObsRelOK(secs, O))
+      cells == TLCEval(IF fast THEN ObsRel(secs, O) ELSE ObsCells(secs))
+      img   == TLCEval(IF fast THEN ImageRel(d, b, O) ELSE Image(d, b))
+      \* <<byte, perm>> at address a + i, or <<-1, <<>>>>
+      at(a, i) == IF fast THEN (IF Rel(a, O) = RelCap THEN <<-1, <<>>>> ELSE CellAt(img, Rel(a, O) + i))
+                  ELSE CellAt(img, AddOff(a, i))
+      probeOK(p) == Has(p, "byte") /\ at(p.addr, 0) = <<p.byte, p.perm>>
+      w32OK(w) == /\ Has(w, "val")
+                  /\ w.val # <<>> => LET bb == [i \in 1..4 |-> at(w.addr, i - 1)[1]] IN
+                                      (\A i \in 1..4 : bb[i] # -1) /\ w.val = Word32(d, bb)
   IN [cells   |-> cells = img,
       overlap |-> Card(cells) = TotalLen(secs, 1),
-      probes  |-> \A i \in 1..Len(e.probes) : ProbeOK(img, e.probes[i]),
-      w32     |-> \A i \in 1..Len(e.w32) : W32OK(d, img, e.w32[i])]
+      probes  |-> \A i \in 1..Len(e.probes) : probeOK(e.probes[i]),
+      w32     |-> \A i \in 1..Len(e.w32) : w32OK(e.w32[i])]
+
+ProbeOK(img, p) == Has(p, "byte") /\ CellAt(img, p.addr) = <<p.byte, p.perm>>
+
+\* diagnosis: the cells of segments at whose start address a LATER zero-size PT_LOAD is placed
+ErasedByEmpty(d, b) ==
+  UNION { Surviving(d, b, k) :
+          k \in { k \in LoadIdx(d) : \E j \in LoadIdx(d) : j > k /\ d.segs[j].memsz = 0
+                                                            /\ d.segs[j].vaddr = d.segs[k].vaddr } }
 
 MemoryOK(d, b, e) ==
   /\ Clean(e.res)
@@ -63,7 +82,9 @@ MemoryExp(d, b, e) ==
            missing |-> Card(img \ cells), extra |-> Card(cells \ img),
            missing1 |-> Some(img \ cells), extra1 |-> Some(cells \ img),
            badprobes |-> [i \in { j \in 1..Len(e.probes) : ~ProbeOK(img, e.probes[j]) } |-> CellAt(img, e.probes[i].addr)],
-           diag |-> Diagnose(LAMBDA x : cells = Image(d, x), b)]
+           diag |-> IF cells \subseteq img /\ cells # img /\ (img \ cells) \subseteq ErasedByEmpty(d, b)
+                    THEN "erased-by-empty-segment"
+                    ELSE Diagnose(LAMBDA x : cells = Image(d, x), b)]
 
 (* ------------------------------ entries, symbols ----------------------- *)
 ObsEntries(e) == { <<e.res.ok[i].addr, e.res.ok[i].name>> : i \in 1..Len(e.res.ok) }
